@@ -207,6 +207,10 @@ func (m *TlvModel) GenReadFrom(buf *bytes.Buffer) error {
 							return nil, enc.ErrUnrecognizedField{TypeNum: typ}
 						}
 						handled = true
+						{{- if (eq $.Model.Ordered true)}}
+						// An unrecognized element does not consume a field position
+						progress --
+						{{- end}}
 						err = reader.Skip(int(l))
 					}
 					if err == nil && !handled {
